@@ -142,8 +142,25 @@ func (k knownFile) match(v violation) *knownFinding {
 }
 
 // build compiles the runner from /repo's working tree into a per-property binary.
+// altKey is non-empty when the checks run against another checkout than /repo (VERIF_REPO):
+// binaries, evidence and replay files then go to a scratch area, never to /verif/evidence.
+func altKey() string {
+	r := os.Getenv("VERIF_REPO")
+	if r == "" || r == "/repo" {
+		return ""
+	}
+	return strings.NewReplacer("/", "_").Replace(strings.Trim(r, "/"))
+}
+
+func outDir(kind string) string {
+	if k := altKey(); k != "" {
+		return filepath.Join(verifDir, ".build", "alt", k, kind)
+	}
+	return filepath.Join(verifDir, kind)
+}
+
 func build(prop, tags string) string {
-	out := filepath.Join(verifDir, ".build", "bin", prop+".test")
+	out := filepath.Join(verifDir, ".build", "bin", prop+altKey()+".test")
 	os.MkdirAll(filepath.Dir(out), 0o755)
 	cmd := exec.Command(filepath.Join(verifDir, "build.sh"), out, tags)
 	var buf bytes.Buffer
@@ -342,7 +359,7 @@ func check(prop, tier string) int {
 	start := time.Now()
 	bin := build(prop, pc.Tags)
 	buildWall := time.Since(start)
-	dir := filepath.Join(verifDir, ".build", "runs", fmt.Sprintf("%s-%d", prop, os.Getpid()))
+	dir := filepath.Join(verifDir, ".build", "runs", fmt.Sprintf("%s%s-%d", prop, altKey(), os.Getpid()))
 	os.MkdirAll(dir, 0o755)
 	defer os.RemoveAll(dir)
 	timeout := time.Duration(pc.TimeoutS) * time.Second
@@ -592,9 +609,9 @@ func check(prop, tier string) int {
 	}
 	ev := evidence{PropertyID: prop, Tier: tier, Seed: int64(base), Level: pc.Level, Coverage: cov, Assumptions: pc.Assumptions, WallS: wall.Seconds(), Violations: len(fresh)}
 	if exit != 2 {
-		os.MkdirAll(filepath.Join(verifDir, "evidence"), 0o755)
+		os.MkdirAll(outDir("evidence"), 0o755)
 		b, _ := json.MarshalIndent(ev, "", " ")
-		if err := os.WriteFile(filepath.Join(verifDir, "evidence", prop+".json"), b, 0o644); err != nil {
+		if err := os.WriteFile(filepath.Join(outDir("evidence"), prop+".json"), b, 0o644); err != nil {
 			die2("evidence: %v", err)
 		}
 	}
@@ -648,8 +665,8 @@ func tryPlan(bin, prop, engine string, seed uint64, plan *planT, clause string, 
 }
 
 func minimiseAndWrite(bin, prop, engine string, seed uint64, runIdx int, v violation, crashed bool, tier string, timeout time.Duration, dir string, known knownFile) string {
-	os.MkdirAll(filepath.Join(verifDir, "replays"), 0o755)
-	path := filepath.Join(verifDir, "replays", fmt.Sprintf("%s-%d.json", prop, seed))
+	os.MkdirAll(outDir("replays"), 0o755)
+	path := filepath.Join(outDir("replays"), fmt.Sprintf("%s-%d.json", prop, seed))
 	// obtain the plan of the failing run
 	planOut := filepath.Join(dir, "planout.json")
 	os.Remove(planOut)
